@@ -399,8 +399,17 @@ func (m *IntegerPreAgg) addSum(v float64) { m.values[sumIndex] += int64(v) }
 func (m *IntegerPreAgg) addCount(n int64) { m.values[countIndex] += n }
 
 func (m *IntegerPreAgg) merge(other *IntegerPreAgg) {
-	m.addMin(float64(other.values[minIndex]), other.values[minTIndex])
-	m.addMax(float64(other.values[maxIndex]), other.values[maxTIndex])
+	// compared as integers: float64 cannot hold every int64 (values beyond 2^53 would be rounded)
+	if v, tm := other.values[minIndex], other.values[minTIndex]; v < m.values[minIndex] {
+		m.values[minIndex], m.values[minTIndex] = v, tm
+	} else if v == m.values[minIndex] && tm < m.values[minTIndex] {
+		m.values[minTIndex] = tm
+	}
+	if v, tm := other.values[maxIndex], other.values[maxTIndex]; v > m.values[maxIndex] {
+		m.values[maxIndex], m.values[maxTIndex] = v, tm
+	} else if v == m.values[maxIndex] && tm < m.values[maxTIndex] {
+		m.values[maxTIndex] = tm
+	}
 	m.values[sumIndex] += other.values[sumIndex]
 	m.values[countIndex] += other.values[countIndex]
 }
